@@ -15,7 +15,7 @@ import ast
 
 from .. import nodewalk, paths
 from ..model import AnalysisError, Project, self_attr, walk_no_nested
-from ..report import Result
+from ..report import Result, ctx_of
 from .common import site, src, status_str
 
 PROP = 'C03'
@@ -40,6 +40,7 @@ def owned_params(ws):
     """(class name, root) -> set of parameter positions that receive an owned item at some spawn site."""
     out = {}
     for w in ws:
+        r.ctx = ctx_of(w)
         for root, ps in w.roots.items():
             for pa in ps:
                 owned = set()
@@ -74,6 +75,7 @@ def run(p: Project, tier: str) -> Result:
     own_pos = {}
     for _ in range(2):
         for w in ws:
+            r.ctx = ctx_of(w)
             for root, ps in w.roots.items():
                 fi = w.root_funcs[root]
                 pnames = [a.arg for a in fi.node.args.args if a.arg != 'self']
@@ -88,6 +90,7 @@ def run(p: Project, tier: str) -> Result:
                                 if v in owned:
                                     own_pos.setdefault((w.ci.name, e.func[5:]), set()).add(i)
     for w in ws:
+        r.ctx = ctx_of(w)
         r.paths += w.npaths
         for root, ps in w.roots.items():
             fi = w.root_funcs[root]
